@@ -226,6 +226,26 @@ Qed.
 Lemma strings_digests a l : forallb is_string (map (digest a) l) = true.
 Proof. induction l; [reflexivity|assumption]. Qed.
 
+
+Lemma NoDup_insert_mid {A} (X K Y : list A) :
+  NoDup (X ++ Y) -> NoDup K -> (forall x, In x K -> ~ In x (X ++ Y)) -> NoDup (X ++ K ++ Y).
+Proof.
+  intros H1 H2 H3. induction K as [|x K' IH]; [assumption|].
+  inversion H2; subst. cbn. eapply Permutation_NoDup; [apply Permutation_middle|].
+  constructor.
+  - intro Hin. apply in_app_or in Hin as [Hin|Hin].
+    + apply (H3 x (or_introl eq_refl)). apply in_or_app; left; assumption.
+    + apply in_app_or in Hin as [Hin|Hin]; [contradiction|].
+      apply (H3 x (or_introl eq_refl)). apply in_or_app; right; assumption.
+  - apply IH; [assumption|]. intros y Hy. apply H3. right; assumption.
+Qed.
+
+Lemma mveq_insert_pre s pl R pre : mveq (s ++ pl) R -> mveq (s ++ pre ++ pl) (pre ++ R).
+Proof.
+  intro H. induction pre as [|[k y] pre' IH]; [assumption|].
+  cbn. apply mveq_plain; [assumption|apply veq_refl].
+Qed.
+
 (* ---------- one level of an issued object ---------- *)
 Section Level.
   Variables (a : N) (D : list val).
@@ -327,39 +347,59 @@ Section Level.
     apply orb_false_iff in H as [H _]. apply orb_false_iff in H as [H _]. assumption.
   Qed.
 
-  Lemma obj_v2 c t R keys o cur :
+  (* [pre]: members written before the level's own (the registered claims at the top level, none below) *)
+  Lemma obj_v2 c t R keys o cur pre pre' :
     o_alg o = a -> NoDup keys -> lvl_ok c t R keys ->
-    exists y, resolve c D (VObj (t_vis t ++ [sd2 o cur (t_lvl t)])) = Ok y /\ is_null y = false /\ (c = true -> veq y (VObj R)).
+    (forall kv, In kv pre -> String.eqb (fst kv) SD = false) ->
+    seq_plain (map (Fm c D) pre) = Ok pre' ->
+    NoDup (filter (notres c) (map fst pre)) ->
+    (forall x, In x (filter (notres c) (map fst pre)) -> ~ In x keys) ->
+    exists y, resolve c D (VObj (pre ++ t_vis t ++ [sd2 o cur (t_lvl t)])) = Ok y /\ is_null y = false /\
+              (c = true -> veq y (VObj (pre' ++ R))).
   Proof.
-    intros Ha Hk (s & pl & H1 & H2 & H3 & H4 & H5 & H6).
-    exists (VObj (s ++ pl)). split; [|split; [reflexivity|]].
-    - unfold sd2. rewrite resolve_obj_sd by (apply nosd_of_notresv; assumption).
+    intros Ha Hk (s & pl & H1 & H2 & H3 & H4 & H5 & H6) Hp1 Hp2 Hp3 Hp4.
+    exists (VObj (s ++ pre' ++ pl)). split; [|split; [reflexivity|]].
+    - unfold sd2. rewrite app_assoc.
+      rewrite resolve_obj_sd by (intros kv Hin; apply in_app_or in Hin as [Hin|Hin]; [apply Hp1|apply (nosd_of_notresv _ H5)]; assumption).
       rewrite Ha. rewrite (sd_outcome_level c (t_lvl t) (decoy_discs cur (o_decoys o)) s H1 (decoys_named c D a cur _ Hnd)).
-      cbn [bind]. rewrite H2. cbn [bind]. rewrite (filter_notres c _ H5).
-      rewrite (proj2 (nodups_NoDup _) (H4 Hk)). reflexivity.
-    - intro Hc. apply veq_of_mveq. apply H6; assumption.
+      cbn [bind]. rewrite map_app, seq_plain_app, Hp2, H2. cbn [bind].
+      rewrite map_app, filter_app, (filter_notres c _ H5).
+      assert (Hn : NoDup (map fst s ++ filter (notres c) (map fst pre) ++ map fst (t_vis t))).
+      { apply NoDup_insert_mid; [apply H4; assumption|assumption|]. intros x Hx Hin. apply (Hp4 x Hx). apply H3. assumption. }
+      rewrite (proj2 (nodups_NoDup _) Hn). reflexivity.
+    - intro Hc. apply veq_of_mveq. apply mveq_insert_pre. apply H6; assumption.
   Qed.
 
   (* the object the v5 builder writes: "_sd" only when there is a digest *)
-  Lemma obj_v5 c t R keys o cur :
+  Lemma obj_v5 c t R keys o cur pre pre' :
     o_alg o = a -> NoDup keys -> lvl_ok c t R keys ->
-    exists y, resolve c D (obj5 o cur (t_vis t) (t_lvl t)) = Ok y /\ is_null y = false /\ (c = true -> veq y (VObj R)).
+    (forall kv, In kv pre -> String.eqb (fst kv) SD = false) ->
+    seq_plain (map (Fm c D) pre) = Ok pre' ->
+    NoDup (filter (notres c) (map fst pre)) ->
+    (forall x, In x (filter (notres c) (map fst pre)) -> ~ In x keys) ->
+    exists y, resolve c D (VObj (pre ++ t_vis t ++ sd5 o cur (t_lvl t))) = Ok y /\ is_null y = false /\
+              (c = true -> veq y (VObj (pre' ++ R))).
   Proof.
-    intros Ha Hk (s & pl & H1 & H2 & H3 & H4 & H5 & H6).
-    exists (VObj (s ++ pl)). split; [|split; [reflexivity|]].
-    - unfold obj5, sd5. destruct (t_lvl t ++ decoy_discs cur (o_decoys o)) eqn:E.
+    intros Ha Hk (s & pl & H1 & H2 & H3 & H4 & H5 & H6) Hp1 Hp2 Hp3 Hp4.
+    exists (VObj (s ++ pre' ++ pl)). split; [|split; [reflexivity|]].
+    - assert (Hn : NoDup (map fst s ++ filter (notres c) (map fst pre) ++ map fst (t_vis t))).
+      { apply NoDup_insert_mid; [apply H4; assumption|assumption|]. intros x Hx Hin. apply (Hp4 x Hx). apply H3. assumption. }
+      assert (Hsd : forall kv, In kv (pre ++ t_vis t) -> String.eqb (fst kv) SD = false).
+      { intros kv Hin; apply in_app_or in Hin as [Hin|Hin]; [apply Hp1|apply (nosd_of_notresv _ H5)]; assumption. }
+      unfold sd5. destruct (t_lvl t ++ decoy_discs cur (o_decoys o)) eqn:E.
       + apply app_eq_nil in E as [E1 _]. rewrite E1 in H1. cbn in H1. inversion H1; subst.
-        rewrite app_nil_r. rewrite resolve_obj_nosd by (apply nosd_of_notresv; assumption).
-        rewrite H2. cbn [bind app]. rewrite (filter_notres c _ H5).
-        specialize (H4 Hk). cbn in H4. rewrite (proj2 (nodups_NoDup _) H4). reflexivity.
-      + rewrite <- E. rewrite resolve_obj_sd by (apply nosd_of_notresv; assumption).
+        rewrite app_nil_r. rewrite resolve_obj_nosd by assumption.
+        rewrite map_app, seq_plain_app, Hp2, H2. cbn [bind app].
+        rewrite map_app, filter_app, (filter_notres c _ H5). cbn [map app] in Hn.
+        rewrite (proj2 (nodups_NoDup _) Hn). reflexivity.
+      + rewrite <- E. rewrite app_assoc. rewrite resolve_obj_sd by assumption.
         cbn [sd_outcome]. rewrite Ha, strings_digests.
         change (map (fun g : val => (dig_name g, enter (resolve c D) D 3 g)) (map (digest a) (t_lvl t ++ decoy_discs cur (o_decoys o))))
           with (map (Gd c D) (map (digest a) (t_lvl t ++ decoy_discs cur (o_decoys o)))).
         rewrite !map_app, seq_named_app, H1, (decoys_named c D a cur _ Hnd). cbn [bind]. rewrite app_nil_r.
-        rewrite H2. cbn [bind]. rewrite (filter_notres c _ H5).
-        rewrite (proj2 (nodups_NoDup _) (H4 Hk)). reflexivity.
-    - intro Hc. apply veq_of_mveq. apply H6; assumption.
+        rewrite seq_plain_app, Hp2, H2. cbn [bind]. rewrite filter_app, (filter_notres c _ H5).
+        rewrite (proj2 (nodups_NoDup _) Hn). reflexivity.
+    - intro Hc. apply veq_of_mveq. apply mveq_insert_pre. apply H6; assumption.
   Qed.
 End Level.
 
@@ -428,7 +468,7 @@ Section V2.
       assert (Hin : lvl_ok a D c (issue2 o (p ++ [SKey k]) (VObj mm)) (reveal2 o sel (p ++ [SKey k]) (VObj mm)) (keys_of (VObj mm))).
       { apply Hx; assumption. }
       destruct (clean_obj_inv mm Hcx) as [Hnd' _].
-      destruct (obj_v2 a D Hnd c _ _ _ o (p ++ [SKey k]) eq_refl Hnd' Hin) as (y & Hy1 & Hy2 & Hy3).
+      destruct (obj_v2 a D Hnd c _ _ _ o (p ++ [SKey k]) [] [] eq_refl Hnd' Hin (fun _ F => match F with end) eq_refl (NoDup_nil _) (fun _ F => match F with end)) as (y & Hy1 & Hy2 & Hy3).
       pose proof (step_vis a D c k _ y (VObj (reveal2 o sel (p ++ [SKey k]) (VObj mm)))
                     (t_lvl (issue2 o (p ++ [SKey k]) (VObj mm)) ++ t_nst (issue2 o (p ++ [SKey k]) (VObj mm))) _ _ _ Hy1 Hy2 Hk Hy3 HT) as Hs.
       cbn [t_vis t_lvl t_nst fst snd] in Hs. exact Hs.
@@ -598,12 +638,14 @@ Section V5.
                   (memp cur (o_recursive o) || memp cur (o_always o) || o_structured o)) eqn:Ev.
         * eexists; split; [reflexivity|]. intros T R keys HT Hd. cbn [t_vis t_lvl t_nst fst snd app] in *.
           assert (Hd' : Dok a sel D (t_lvl t' ++ t_nst t')) by dok Hd.
-          destruct (obj_v5 a D Hnd c t' _ _ o cur eq_refl Hnd' (Hl' Hd')) as (y & Hy1 & Hy2 & Hy3).
+          destruct (obj_v5 a D Hnd c t' _ _ o cur [] [] eq_refl Hnd' (Hl' Hd') (fun _ F => match F with end) eq_refl (NoDup_nil _) (fun _ F => match F with end)) as (y & Hy1 & Hy2 & Hy3).
+          change (VObj ([] ++ t_vis t' ++ sd5 o cur (t_lvl t'))) with (obj5 o cur (t_vis t') (t_lvl t')) in Hy1.
           pose proof (step_vis a D c k _ y _ (decoy_discs cur (o_decoys o) ++ t_lvl t' ++ t_nst t') T R keys Hy1 Hy2 Hk Hy3 HT) as Hs.
           exact Hs.
         * eexists; split; [reflexivity|]. intros T R keys HT Hd. cbn [t_vis t_lvl t_nst fst snd app] in *.
           assert (Hd' : Dok a sel D (t_lvl t' ++ t_nst t')) by dok Hd.
-          destruct (obj_v5 a D Hnd c t' _ _ o cur eq_refl Hnd' (Hl' Hd')) as (y & Hy1 & Hy2 & Hy3).
+          destruct (obj_v5 a D Hnd c t' _ _ o cur [] [] eq_refl Hnd' (Hl' Hd') (fun _ F => match F with end) eq_refl (NoDup_nil _) (fun _ F => match F with end)) as (y & Hy1 & Hy2 & Hy3).
+          change (VObj ([] ++ t_vis t' ++ sd5 o cur (t_lvl t'))) with (obj5 o cur (t_vis t') (t_lvl t')) in Hy1.
           pose proof (step_sd a D c k cur _ y _ (decoy_discs cur (o_decoys o) ++ t_lvl t' ++ t_nst t') T R keys Hy1 Hy3 HT) as Hs.
           assert (Hm : memv (digest a (mk 3 cur k (obj5 o cur (t_vis t') (t_lvl t')))) D = memp cur sel) by (apply Hd; left; reflexivity).
           rewrite Hm in Hs. exact Hs.
@@ -642,3 +684,196 @@ Section V5.
     exists (cat3 ts). cbn [issue5]. rewrite Hts. split; [reflexivity|]. exact HT.
   Qed.
 End V5.
+
+(* ---------- structure of the issued disclosure lists ---------- *)
+Definition is_decoy_step (s : step) : bool := match s with SDecoy _ => true | _ => false end.
+Definition site_path (p : path) : bool := negb (existsb is_decoy_step p).
+(* a disclosure the holder can choose: arity 2 or 3; the others are the decoy salts of the v5 list *)
+Definition Qd (d : disc) : Prop := d_e d <> 0%N \/ site_path (d_salt d) = false.
+
+Lemma site_path_decoy p i : site_path (p ++ [SDecoy i]) = false.
+Proof. unfold site_path. rewrite existsb_app. cbn. rewrite orb_true_r. reflexivity. Qed.
+
+Lemma Qd_decoys p n : Forall Qd (decoy_discs p n).
+Proof.
+  induction n as [|k IH]; [constructor|]. cbn [decoy_discs]. apply Forall_app. split; [assumption|].
+  constructor; [|constructor]. right. apply site_path_decoy.
+Qed.
+
+Lemma cat3_lvl_nst ts :
+  forall d, In d (t_lvl (cat3 ts) ++ t_nst (cat3 ts)) <-> exists t, In t ts /\ In d (t_lvl t ++ t_nst t).
+Proof.
+  intro d. unfold cat3. cbn [t_lvl t_nst fst snd]. rewrite in_app_iff, !in_flat_map. split.
+  - intros [(t & Ht & Hd)|(t & Ht & Hd)]; exists t; (split; [assumption|]); apply in_or_app; [left|right]; assumption.
+  - intros (t & Ht & Hd). apply in_app_or in Hd as [Hd|Hd]; [left|right]; exists t; split; assumption.
+Qed.
+
+Lemma issue2_Qd o cv : forall p d, In d (t_lvl (issue2 o p cv) ++ t_nst (issue2 o p cv)) -> d_e d = 3%N.
+Proof.
+  induction cv as [| b | z | s | a0 e0 e s n v IH | l IH | m IH] using val_ind'; intros p d Hd; try (cbn in Hd; contradiction).
+  cbn [issue2] in Hd. apply cat3_lvl_nst in Hd as (t & Ht & Hd). apply in_map_iff in Ht as ([k x] & <- & Hkx).
+  rewrite Forall_forall in IH. specialize (IH (k, x) Hkx). cbn [snd] in IH.
+  unfold member2 in Hd. cbn [fst snd] in Hd.
+  assert (Hleaf : forall (leaf : triple), leaf = (if memp (p ++ [SKey k]) (o_nonsd o) then ([(k, x)], [], []) else ([], [mk 3 (p ++ [SKey k]) k x], [])) ->
+            In d (t_lvl leaf ++ t_nst leaf) -> d_e d = 3%N).
+  { intros leaf -> H. destruct (memp (p ++ [SKey k]) (o_nonsd o)); cbn in H; [contradiction|]. destruct H as [<-|[]]. reflexivity. }
+  destruct x; try (eapply Hleaf; [reflexivity|exact Hd]).
+  destruct (o_structured o); [|eapply Hleaf; [reflexivity|exact Hd]].
+  cbn [t_lvl t_nst fst snd app] in Hd. eapply IH. exact Hd.
+Qed.
+
+Lemma seq3_inv l : forall ts, seq3 l = Ok ts -> Forall2 (fun r t => r = Ok t) l ts.
+Proof.
+  induction l as [|x r IH]; intros ts H; cbn in H.
+  - inversion H. constructor.
+  - destruct x as [t| | |]; cbn in H; try discriminate. destruct (seq3 r) as [ts'| | |]; cbn in H; try discriminate.
+    inversion H; subst. constructor; [reflexivity|]. apply IH. reflexivity.
+Qed.
+
+Lemma Forall2_in_r {A B} (R : A -> B -> Prop) l l' y : Forall2 R l l' -> In y l' -> exists x, In x l /\ R x y.
+Proof.
+  induction 1 as [|a b r r' Hab Hr IH]; intro Hin; [contradiction|].
+  destruct Hin as [<-|Hin]; [exists a; split; [left; reflexivity|assumption]|].
+  destruct (IH Hin) as (x & Hx & HR). exists x; split; [right|]; assumption.
+Qed.
+
+Lemma elems5_Qd o p l : forall i, Forall Qd (snd (elems5 o p i l)).
+Proof.
+  induction l as [|x r IH]; intro i; [constructor|]. cbn [elems5]. specialize (IH (N.succ i)).
+  destruct (elems5 o p (N.succ i) r) as [es ds]. destruct (memp (p ++ [SIdx i]) (o_nonsd o)); cbn [snd] in *; [assumption|].
+  constructor; [left; discriminate|assumption].
+Qed.
+
+Lemma issue5_Qd o cv : forall ign p t, issue5 o ign p cv = Ok t -> Forall Qd (t_lvl t ++ t_nst t).
+Proof.
+  induction cv as [| b | z | s | a0 e0 e s n v IH | l IH | m IH] using val_ind'; intros ign p t Ht;
+    try (cbn in Ht; inversion Ht; constructor).
+  cbn [issue5] in Ht. destruct (seq3 (map (member5 (issue5 o) o ign p) m)) as [ts| | |] eqn:Es; cbn in Ht; try discriminate.
+  inversion Ht; subst. apply Forall_forall. intros d Hd. apply cat3_lvl_nst in Hd as (tk & Htk & Hd).
+  apply seq3_inv in Es. destruct (Forall2_in_r _ _ _ _ Es Htk) as (rk & Hrk & Ek).
+  apply in_map_iff in Hrk as ([k x] & <- & Hkx).
+  rewrite Forall_forall in IH. specialize (IH (k, x) Hkx). cbn [snd] in IH.
+  unfold member5 in Ek. cbn [fst snd] in Ek. set (cur := p ++ [SKey k]) in *.
+  assert (Hmk : forall v, Qd (mk 3 cur k v)) by (intro v0; left; discriminate).
+  destruct x as [| b | z | s | a0 e0 e s n v | l | mm]; try discriminate.
+  - destruct (memp cur (o_nonsd o) || ign); inversion Ek; subst; cbn in Hd; try contradiction. destruct Hd as [<-|[]]. apply Hmk.
+  - destruct (memp cur (o_nonsd o) || ign); inversion Ek; subst; cbn in Hd; try contradiction. destruct Hd as [<-|[]]. apply Hmk.
+  - destruct (memp cur (o_nonsd o) || ign); inversion Ek; subst; cbn in Hd; try contradiction. destruct Hd as [<-|[]]. apply Hmk.
+  - destruct (memp cur (o_nonsd o) || ign); inversion Ek; subst; cbn in Hd; try contradiction. destruct Hd as [<-|[]]. apply Hmk.
+  - destruct (memp cur (o_nonsd o)); [inversion Ek; subst; cbn in Hd; contradiction|].
+    pose proof (elems5_Qd o cur l 0) as He. destruct (elems5 o cur 0 l) as [es eds]. cbn [snd] in He. rewrite Forall_forall in He.
+    destruct (memp cur (o_always o) || o_structured o); inversion Ek; subst; cbn [t_lvl t_nst fst snd app] in Hd.
+    + apply He; assumption.
+    + destruct Hd as [<-|Hd]; [apply Hmk|apply He; assumption].
+  - destruct (memp cur (o_nonsd o)); [inversion Ek; subst; cbn in Hd; contradiction|].
+    destruct (issue5 o (negb (memp cur (o_recursive o) || memp cur (o_always o) || o_structured o)) cur (VObj mm)) as [t'| | |] eqn:Et; cbn in Ek; try discriminate.
+    specialize (IH _ _ _ Et). rewrite Forall_forall in IH.
+    pose proof (Qd_decoys cur (o_decoys o)) as Hdec. rewrite Forall_forall in Hdec.
+    destruct (negb (memp cur (o_recursive o) && negb (memp cur (o_always o))) && (memp cur (o_recursive o) || memp cur (o_always o) || o_structured o));
+      inversion Ek; subst; cbn [t_lvl t_nst fst snd app] in Hd.
+    + apply in_app_or in Hd as [Hd|Hd]; [apply Hdec; assumption|apply IH; assumption].
+    + destruct Hd as [<-|Hd]; [apply Hmk|]. apply in_app_or in Hd as [Hd|Hd]; [apply Hdec; assumption|apply IH; assumption].
+Qed.
+
+(* ---------- the presented digests ---------- *)
+Lemma Dok_choose a sel ds : Dok a sel (map (digest a) (choose sel ds)) ds.
+Proof.
+  intros d Hd. destruct (memp (d_salt d) sel) eqn:E.
+  - apply memv_In. apply in_map. apply filter_In. split; assumption.
+  - destruct (memv (digest a d) (map (digest a) (choose sel ds))) eqn:M; [|reflexivity].
+    apply memv_In in M. apply in_map_iff in M as (d' & He & Hd'). apply digest_inj in He. subst d'.
+    apply filter_In in Hd' as [_ Hs]. congruence.
+Qed.
+
+Lemma Dnodecoy_choose a sel ds :
+  Forall Qd ds -> forallb site_path sel = true -> Dnodecoy (map (digest a) (choose sel ds)).
+Proof.
+  intros HQ Hs a' c s n v. destruct (memv (VDig a' c 0 s n v) (map (digest a) (choose sel ds))) eqn:M; [|reflexivity].
+  apply memv_In in M. apply in_map_iff in M as (d & He & Hd). apply filter_In in Hd as [Hin Hsel].
+  rewrite Forall_forall in HQ. destruct (HQ d Hin) as [Hq|Hq].
+  - unfold digest in He. inversion He. congruence.
+  - apply memp_In in Hsel. rewrite forallb_forall in Hs. rewrite (Hs _ Hsel) in Hq. discriminate.
+Qed.
+
+(* ---------- the whole SD-JWT ---------- *)
+Definition alg_ok (a : N) : Prop := a = 256%N \/ a = 384%N \/ a = 512%N.
+
+Lemma get_alg_issued o rest : alg_ok (o_alg o) -> get_alg (VObj (registered o ++ rest)) = Ok (o_alg o).
+Proof.
+  intro Ha. unfold get_alg, from_vc, registered. destruct (o_cnf o); cbn;
+    destruct Ha as [Ha|[Ha|Ha]]; rewrite Ha; reflexivity.
+Qed.
+
+Lemma Fm_raw c D k v : reserved c k = false -> clean v = true -> Fm c D (k, v) = (k, OVal (Ok v)).
+Proof. intros Hr Hc. unfold Fm. cbn [fst snd]. rewrite Hr, (resolve_clean c D v Hc). reflexivity. Qed.
+
+Lemma registered_nosd o : forall kv, In kv (registered o) -> String.eqb (fst kv) SD = false.
+Proof.
+  unfold registered. destruct (o_cnf o); cbn; intros kv H;
+    repeat (destruct H as [<-|H]; [reflexivity|]); contradiction.
+Qed.
+
+Lemma registered_plain o D : seq_plain (map (Fm true D) (registered o)) = Ok (registered_out o).
+Proof.
+  unfold registered, registered_out. destruct (o_cnf o); cbn [app map].
+  - rewrite (Fm_raw true D "iss" (VStr (o_iss o)) eq_refl eq_refl), (Fm_raw true D "cnf" (VObj [("jwk", VNum z)]) eq_refl eq_refl). reflexivity.
+  - rewrite (Fm_raw true D "iss" (VStr (o_iss o)) eq_refl eq_refl). reflexivity.
+Qed.
+
+Lemma registered_keys o : filter (notres true) (map fst (registered o)) = map fst (registered_out o).
+Proof. unfold registered, registered_out. destruct (o_cnf o); reflexivity. Qed.
+
+Lemma registered_out_nodup o : NoDup (map fst (registered_out o)).
+Proof. apply nodups_NoDup. unfold registered_out. destruct (o_cnf o); reflexivity. Qed.
+
+Lemma registered_out_keys o x : In x (map fst (registered_out o)) -> x = "iss" \/ x = "cnf".
+Proof. unfold registered_out. destruct (o_cnf o); cbn; intuition. Qed.
+
+Lemma exact_output o claims sel payload ds :
+  alg_ok (o_alg o) -> clean (VObj claims) = true ->
+  ~ In "iss" (map fst claims) -> ~ In "cnf" (map fst claims) ->
+  forallb site_path sel = true ->
+  (o_v5 o = true -> akept5 o sel false [] (VObj claims) = true) ->
+  issue o claims = Ok (payload, ds) ->
+  get_alg payload = Ok (o_alg o) /\
+  exists y, resolve true (map (digest (o_alg o)) (choose sel ds)) payload = Ok y /\ veq y (reveal o sel claims).
+Proof.
+  intros Ha Hc Hiss Hcnf Hsel Hak Hi. unfold issue in Hi.
+  destruct (key_exists_sd (VObj claims)); [discriminate|].
+  destruct (clean_obj_inv claims Hc) as [Hnd _].
+  assert (Hdisj : forall x, In x (filter (notres true) (map fst (registered o))) -> ~ In x (keys_of (VObj claims))).
+  { intros x Hx. rewrite registered_keys in Hx. apply registered_out_keys in Hx as [Hx|Hx]; subst x; assumption. }
+  assert (Hnil : Dnodecoy []) by (intros ? ? ? ? ?; reflexivity).
+  unfold reveal. destruct (o_v5 o) eqn:Ev.
+  - destruct (level5_all o sel [] Hnil (VObj claims) true false [] Hc (Hak eq_refl)) as (t & Ht & _).
+    rewrite Ht in Hi. cbn [bind] in Hi. inversion Hi; subst payload ds; clear Hi.
+    split; [apply get_alg_issued; assumption|].
+    set (ds := decoy_discs [] (o_decoys o) ++ t_lvl t ++ t_nst t).
+    set (D := map (digest (o_alg o)) (choose sel ds)).
+    assert (HQ : Forall Qd ds).
+    { apply Forall_app. split; [apply Qd_decoys|exact (issue5_Qd o _ _ _ _ Ht)]. }
+    assert (HD : Dnodecoy D) by (apply Dnodecoy_choose; assumption).
+    destruct (level5_all o sel D HD (VObj claims) true false [] Hc (Hak eq_refl)) as (t' & Ht' & Hl).
+    rewrite Ht in Ht'. inversion Ht'; subst t'; clear Ht'.
+    assert (Hok : Dok (o_alg o) sel D (t_lvl t ++ t_nst t)).
+    { intros d Hd. apply Dok_choose. unfold ds. apply in_or_app. right. assumption. }
+    destruct (obj_v5 (o_alg o) D HD true t _ _ o [] (registered o) (registered_out o) eq_refl Hnd (Hl Hok)
+                (registered_nosd o) (registered_plain o D)) as (y & Hy1 & _ & Hy3).
+    + rewrite registered_keys. apply registered_out_nodup.
+    + exact Hdisj.
+    + exists y. split; [exact Hy1|]. apply Hy3. reflexivity.
+  - inversion Hi; subst payload ds; clear Hi.
+    split; [apply get_alg_issued; assumption|].
+    set (t := issue2 o [] (VObj claims)).
+    set (ds := t_lvl t ++ t_nst t).
+    set (D := map (digest (o_alg o)) (choose sel ds)).
+    assert (HQ : Forall Qd ds).
+    { apply Forall_forall. intros d Hd. left. rewrite (issue2_Qd o _ _ _ Hd). discriminate. }
+    assert (HD : Dnodecoy D) by (apply Dnodecoy_choose; assumption).
+    pose proof (level2_all o sel D HD (VObj claims) true [] Hc (Dok_choose (o_alg o) sel ds)) as Hl.
+    destruct (obj_v2 (o_alg o) D HD true t _ _ o [] (registered o) (registered_out o) eq_refl Hnd Hl
+                (registered_nosd o) (registered_plain o D)) as (y & Hy1 & _ & Hy3).
+    + rewrite registered_keys. apply registered_out_nodup.
+    + exact Hdisj.
+    + exists y. split; [exact Hy1|]. apply Hy3. reflexivity.
+Qed.
